@@ -2,6 +2,8 @@ import Driver.Util
 import GqlgenVerif.Model.Upload
 import GqlgenVerif.Gen.AddUploadGuards
 import GqlgenVerif.Gen.DecodeSites
+import GqlgenVerif.Model.WsClose
+import GqlgenVerif.Gen.WsCloseReasons
 /-! Line-protocol driver for C10: runs the `Upload` model (with the guards / decode sites regenerated
 from /repo) on the cases printed by `go/harness/c10`. -/
 open GqlgenVerif GqlgenVerif.Upload
@@ -166,6 +168,47 @@ def envRun (name cls : String) : String :=
     | .panic => "panic"
   | _, _ => "any"
 
+/-! ### close frames (rows `wl`, `cf`) -/
+open GqlgenVerif.WsClose in
+/-- the close site that answers a start/subscribe whose id is still active: the one site of `run`
+whose reason echoes client bytes -/
+def dupSite : Option CloseSite :=
+  Gen.WsCloseReasons.sites.find? fun st => st.fn == "run" && (match st.reason with | .echo _ _ .client _ => true | _ => false)
+
+open GqlgenVerif.WsClose in
+def showWire (site : CloseSite) (s : Bytes) (w : Wire) : String :=
+  let spec := if specOk site s w then "ok" else "FAIL"
+  match w with
+  | .close c r => s!"close:{c} {hex r} spec={spec}"
+  | .dropped => s!"dropped - spec={spec}"
+  | .panic => s!"panic - spec={spec}"
+
+open GqlgenVerif.WsClose in
+/-- model: what the client sees after the second start/subscribe under the id `s` -/
+def wlRun (scen hs : String) : String :=
+  if scen != "dup" && scen != "dupq" then "any" else
+  match dupSite, unhex hs with
+  | some site, some s => showWire site s (wire site s)
+  | _, _ => "bad-op"
+
+open GqlgenVerif.WsClose in
+/-- Spec evaluated on what the implementation sent: `wlspec <hex id> <close code | dropped> <hex reason>` -/
+def wlSpec (hs obs hr : String) : String :=
+  match dupSite, unhex hs, unhex hr with
+  | some site, some s, some r =>
+    let w : Wire := match obs.toNat? with
+      | some c => .close c r
+      | none => .dropped
+    if specOk site s w then "ok" else "FAIL"
+  | _, _, _ => "bad-op"
+
+open GqlgenVerif.WsClose in
+/-- gorilla's rule for a close frame with a reason of `n` bytes -/
+def cfRun (n : Nat) : String :=
+  match frame 4000 (List.replicate n 0x72) with
+  | .close _ r => s!"close:4000 {r.length}"
+  | _ => "dropped"
+
 /-- one line in, one line out -/
 def step (line : String) : String :=
   match line.splitOn " " with
@@ -180,6 +223,11 @@ def step (line : String) : String :=
   | "mp" :: fields => mpRun fields
   | ["tr", name, cls] => if name == "form" then "any" else envRun name cls
   | ["ws", _proto, phase, cls] => if cls == "-" || phase != "post" then "any" else envRun "ws" cls
+  | ["wl", _proto, scen, hs] => wlRun scen hs
+  | ["wlspec", hs, obs, hr] => wlSpec hs obs hr
+  | ["cf", n] => match n.toNat? with
+    | some k => cfRun k
+    | none => "bad-op"
   | ["guards"] => reprStr guards
   | _ => "bad-op"
 
